@@ -35,6 +35,8 @@ func (h *vEngH) pid(i int) *PID {
 		return NewPID(h.addr, "s/c")
 	case 3:
 		return NewPID("other:1", "s/x")
+	case 5:
+		return NewPID("other:1", "s/a") // foreign address, id of a live local actor
 	}
 	return nil
 }
@@ -46,7 +48,7 @@ func (h *vEngH) idx(p *PID) string {
 	if p.ID == "verif/es" {
 		return "es" // forwards carry the event stream as sender
 	}
-	for i := 0; i < 4; i++ {
+	for _, i := range []int{0, 1, 2, 3, 5} {
 		q := h.pid(i)
 		if q.Address == p.Address && q.ID == p.ID {
 			return strconv.Itoa(i)
@@ -243,9 +245,9 @@ func TestVerifEngine(t *testing.T) {
 		for j := 0; j < k; j++ {
 			switch c := rr.Intn(20); {
 			case c < 5:
-				ops = append(ops, "sub"+strconv.Itoa(rr.Intn(4)))
+				ops = append(ops, "sub"+strconv.Itoa(vgen.Pick(rr, []int{0, 1, 2, 3, 5})))
 			case c < 7:
-				ops = append(ops, "uns"+strconv.Itoa(rr.Intn(4)))
+				ops = append(ops, "uns"+strconv.Itoa(vgen.Pick(rr, []int{0, 1, 2, 3, 5})))
 			case c < 11:
 				ev++
 				ops = append(ops, "ev"+strconv.Itoa(ev))
@@ -254,7 +256,7 @@ func TestVerifEngine(t *testing.T) {
 				if rr.Chance(1, 2) {
 					s = strconv.Itoa(rr.Intn(4))
 				}
-				ops = append(ops, "snd"+strconv.Itoa(rr.Intn(5))+"s"+s)
+				ops = append(ops, "snd"+strconv.Itoa(rr.Intn(6))+"s"+s)
 			case c < 17:
 				ops = append(ops, "reg"+strconv.Itoa(rr.Intn(3)))
 			case c < 19:
